@@ -246,9 +246,9 @@ Definition tapply (w : world) (cl : call) : world :=
   | HRemoved, _ | HTrashed, _ => delete (cl_t cl, cl_k cl) w
   | _, _ => w
   end.
-(** C08 speaks of the target and the local data only: once drained, the local data equal their
-    expected-state copy and the mapped projection of the replayed bus, and the target obtained
-    by replaying the successful handler invocations equals the local data. (The *remote* cache
+(** C08 speaks of the target and the local data only: once drained, the local data equal the
+    mapped projection of the replayed bus, and the target obtained
+    by replaying the successful handler invocations equals the local data. (The expected-state copies are C07's business; the *remote* cache
     may lag behind after a cancelled merge; that is outside C08.) *)
 Definition target_of (its : list citer) : world :=
   fold_left (fun w it => fold_left tapply (ci_calls it) w) its ∅.
@@ -258,7 +258,6 @@ Definition c08_healed (c : ccfg) (its : list citer) : bool :=
   | last :: _ =>
       match ci_queue last with [] => true | _ => false end
       && negb (ci_exc last)
-      && world_eqb (nthw last 4) (nthw last 6)
       && world_eqb (nthw last 4) (project c (rreplay (map snd (ci_bus last))))
       && world_eqb (target_of its) (nthw last 4)
   end.
